@@ -241,8 +241,12 @@ def perform (cfg : EvCfg) (nested : Nat) (command : List Str) (a : Act) (st : St
 /-- `finalEval` once every argument is a string -/
 def finalEval (cfg : EvCfg) (disp : List Str → Dispatch) (beh : Str → List Str → List Str → Act)
     (nested : Nat) (path : List Nat) (done : List Str) (st : St) : Outcome × St :=
-  let crash : Outcome × St :=      -- an exception inside finalEval, caught by the replying command's _callCommand
-    if cfg.detailed then (.stopped (.error cfg.indexErrorText), st) else (.replied cfg.errorText, st)
+  -- an exception inside finalEval (`args[0]` on the emptied list): it unwinds into the `_callCommand`
+  -- of the sub-command whose noReply emptied the list; that one answers `replyError` on its own
+  -- (child) proxy, which truncates and hands the text to this proxy, now `finalEvaled`
+  let crash : Outcome × St :=
+    if cfg.detailed then (.stopped (.error cfg.indexErrorText), st)
+    else (.replied (cfg.errorText.take cfg.maxLen), st)
   match disp done with
   | .exc _ => crash
   | .none => (.stopped (.invalid done), st)
